@@ -44,6 +44,17 @@ def cases(tier, seed):
             # the same with the edges listed against the declaration order of their (merged) sources, and crossed
             add(C09.make(['r', 'q'], ['a'], [edge('q', 'a', g(j), 1), edge('r', 'a', g(i), 0)]), 'shared_target_perm')
             add(C09.make(['r', 'q'], ['a', 'b'], [edge('q', 'a', g(i), 0), edge('r', 'b', g(j), 1)]), 'crossed')
+    if tier == 'quick':
+        # a kernel shared by two edges listed before / between / after another kernel (one source; two merged sources)
+        for i, j in itertools.permutations(range(len(DS)), 2):
+            for trip in ((i, i, j), (i, j, i), (j, i, i)):
+                add(C09.make(['r'], ['a', 'b', 'cc'], [edge('r', t, DS[k], n) for n, (t, k) in enumerate(zip(['a', 'b', 'cc'], trip))]),
+                    'shared_source3')
+            if i < 3 and j < 4:
+                add(C09.make(['r', 'q'], ['a', 'b'], [edge('r', 'a', DS[i], 0), edge('q', 'a', DS[i], 1), edge('r', 'b', DS[j], 2)]),
+                    'two_sources_shared_kernel')
+                add(C09.make(['r', 'q'], ['a', 'b'], [edge('q', 'b', DS[j], 2), edge('q', 'a', DS[i], 1), edge('r', 'a', DS[i], 0)]),
+                    'two_sources_shared_kernel')
     if tier != 'quick':
         for i, j, k in itertools.product(opts[1:5], repeat=3):
             add(C09.make(['r'], ['a', 'b', 'cc'], [edge('r', 'a', g(i), 0), edge('r', 'b', g(j), 1), edge('r', 'cc', g(k), 2)]),
